@@ -1115,3 +1115,22 @@ V('c08-address-memo-survives-clear', 'C08', 'C08.PURGE', INFOF, _CLR_OLD, _CLR_N
 V('c03-address-memo-survives-clear', 'C03', 'C03.MEMO', INFOF, _CLR_OLD, _CLR_NEW, names=['async_clear_cache'])
 V('c08-goodbyes-under-deadline', 'C08', 'C08.COMPLETE', 'asyncio.py', "        await self.async_unregister_all_services()",
   "        with contextlib.suppress(asyncio.TimeoutError):\n            await asyncio.wait_for(self.async_unregister_all_services(), timeout=0.375)", names=['async_close'])
+
+# ---------------------------------------------------------------- round 10: who may push onto the refresh heap; ordering of tuples; address parser
+BRF = '_services/browser.py'
+_RS_OLD = "        expire_time_millis = pointer.get_expiration_time(100)\n        self._schedule_ptr_refresh(pointer, expire_time_millis, refresh_time_millis)\n\n    def schedule_rescue_query("
+_RS_NEW = "        self.schedule_ptr_first_refresh(pointer)\n\n    def schedule_ptr_first_refresh(self, pointer: DNSPointer) -> None:\n        refresh_time_millis = pointer.get_expiration_time(_EXPIRE_REFRESH_TIME_PERCENT)\n        expire_time_millis = pointer.get_expiration_time(100)\n        self._schedule_ptr_refresh(pointer, expire_time_millis, refresh_time_millis)\n\n    def schedule_rescue_query("
+_NEWREC_OLD = "                        self._enqueue_callback(SERVICE_STATE_CHANGE_ADDED, type_, pointer.alias)\n                        self.query_scheduler.reschedule_ptr_first_refresh(pointer)"
+_NEWREC_NEW = "                        self._enqueue_callback(SERVICE_STATE_CHANGE_ADDED, type_, pointer.alias)\n                        self.query_scheduler.schedule_ptr_first_refresh(pointer)"
+V('c10-twin-first-refresh-helper-extracted', 'C10', 'C10.PAIR', BRF, _RS_OLD, _RS_NEW, expect='silent')
+V('c10-new-record-pushed-without-map-lookup', 'C10', 'C10.PAIR', BRF, _RS_OLD, _RS_NEW, names=['schedule_ptr_first_refresh'], more=[(BRF, _NEWREC_OLD, _NEWREC_NEW)])
+V('c15-new-record-pushed-without-map-lookup', 'C15', 'C15.CONTAINERS', BRF, _RS_OLD, _RS_NEW, names=['schedule_ptr_first_refresh'], more=[(BRF, _NEWREC_OLD, _NEWREC_NEW)])
+_SORT_OLD = "    for question in sorted(\n        query_by_size,\n        key=query_by_size.get,  # type: ignore\n        reverse=True,\n    ):\n        max_compressed_size = query_by_size[question]\n"
+_SORT_NEW = "    for max_compressed_size, question in sorted([(size, q) for q, size in query_by_size.items()], reverse=True):\n"
+V('c10-questions-sorted-as-tuples', 'C10', 'C10.REARM', BRF, _SORT_OLD, _SORT_NEW, names=['TypeError'])
+V('c15-questions-sorted-as-tuples', 'C15', 'C15.ESCAPE', BRF, _SORT_OLD, _SORT_NEW, names=['TypeError'])
+V('c10-twin-questions-sorted-by-size-key', 'C10', 'C10.REARM', BRF, _SORT_OLD, "    for max_compressed_size, question in sorted([(size, q) for q, size in query_by_size.items()], key=lambda sq: sq[0], reverse=True):\n", expect='silent')
+IPF = '_utils/ipaddress.py'
+V('c15-scoped-address-parsed-unguarded', 'C15', 'C15.ESCAPE', IPF,
+  '        return cached_ip_addresses_wrapper("".join((str(base_address), "%", str(scope))))',
+  '        return ZeroconfIPv6Address("".join((str(base_address), "%", str(scope))))', names=['AddressValueError'])
